@@ -524,3 +524,50 @@ def inplace_buffer_rebinding(mod, cls):
         if attr in buffers and not is_fresh(e.value):
             off.append((meth, attr, e.node, str(e.value)[:100]))
     return buffers, off
+
+
+def stale_buffer_flags(mod, cls):
+    """Validity keys of work buffers.  `if self.K != key: fill(out=self.B); self.K = key` makes K the statement "B holds the values for
+    key"; every other method that fills or stores into B must reset K, otherwise a later call with the remembered key reads what the
+    other method left there.  -> [(K, B, method with the keyed fill, offending method, node)]"""
+    fills = {}          # method -> {buffer: [(event, guards)]}
+    keysets = {}        # method -> {attr stored}
+    evs = {}
+    for fn in mod.methods(cls):
+        ev = Ev(fn, mod.ctx).run()
+        evs[fn.name] = ev
+        for e in ev.events:
+            if e.kind == "call":
+                a = e.value.as_atom()
+                kw = dict(a[3]) if a and a[0] == "call" and len(a) > 3 and a[3] else {}
+                for k in ("out", "result"):
+                    v = kw.get(k)
+                    va = v.as_atom() if v is not None else None
+                    if va and va[0] == "attr" and va[1].key() == "self":
+                        fills.setdefault(fn.name, {}).setdefault(va[2], []).append(e)
+            elif e.kind in ("store", "aug"):
+                t = e.target.as_atom()
+                if t and t[0] == "attr" and t[1].key() == "self":
+                    keysets.setdefault(fn.name, set()).add(t[2])
+                elif t and t[0] == "sub" and t[1].as_atom() and t[1].as_atom()[0] == "attr" and t[1].as_atom()[1].key() == "self":
+                    fills.setdefault(fn.name, {}).setdefault(t[1].as_atom()[2], []).append(e)
+    keyed = {}          # (K, B) -> method
+    for meth, bufs in fills.items():
+        for B, events in bufs.items():
+            for e in events:
+                for c, pol in e.guards:
+                    for at in find_atoms(c, lambda t: t[0] == "attr" and t[1].key() == "self" and t[2] != B):
+                        K = at[2]
+                        # the same method stores the key next to the fill
+                        if K in keysets.get(meth, ()) and any(x.kind == "store" and x.target.key() == f"self.{K}" and x.guards[:len(e.guards)] == e.guards
+                                                               for x in evs[meth].events):
+                            keyed[(K, B)] = meth
+    out = []
+    for (K, B), meth in keyed.items():
+        for other, bufs in fills.items():
+            if other == "__init__" or B not in bufs:
+                continue
+            unkeyed = [e for e in bufs[B] if not any(find_atoms(c, lambda t: t[0] == "attr" and t[1].key() == "self" and t[2] == K) for c, _ in e.guards)]
+            if unkeyed and K not in keysets.get(other, ()):
+                out.append((K, B, meth, other, unkeyed[0].node))
+    return out
